@@ -12,7 +12,16 @@ statement's freedom about what such a send leaves behind); returned hashes and d
 retained as handed over and, for half of the histories, rendered (and compared with a private copy,
 `stable`) only when the history is over; two logics on one Config value and one gateway are
 interleaved (twins); a panic is a reply of its own class, a call that does not return within the
-watchdog time is a `hang` reply - both rejected by the spec, never exit 2."""
+watchdog time is a `hang` reply - both rejected by the spec, never exit 2.
+
+Long histories: runs of 255/256/257 and 65535/65536/65537 identical calls (wrong code, right code,
+wrong hash, refused sends, unknown pair) against one sent code with the limit small, around the width
+or MaxInt are logged as one `run` event with run-length encoded replies and judged by a closed form
+that TLC proves equal to the single steps (RunAgrees); send bursts of MaxCount+4 with MaxCount around
+256 (thorough: 65536).  The alphabet clause is judged PER POSITION: for code lengths 1..40 (quick: 11
+of them incl. 9, 10, 11, 20, 33) and for the generators over 5 alphabets and lengths 1, 7, 33, 70 the
+harness logs, per position, the set of characters seen in 45*|alphabet| draws; every set must be the
+whole alphabet (false-alarm probability < 1e-12 per run)."""
 
 
 def _s(codes):
@@ -25,10 +34,18 @@ def _s(codes):
 def describe(rj):
     ev, reset = rj["event"], rj["trace"][0]
     cfg = {k: reset.get(k) for k in ("mock", "len", "ttl", "gap", "win", "maxCount", "maxVerify")}
-    if ev.get("ev") == "call":
+    def _rle(e):
+        return "x%d:%s" % (e["times"], "+".join("%s*%d" % (g["r"], g["c"]) for g in e["rle"]))
+
+    if ev.get("ev") in ("call", "run"):
         a = ev["a"]
         p = "(%r, %r)" % (_s(a["p"]["area"]), _s(a["p"]["phone"]))
-        if a["op"] == "send":
+        if ev["ev"] == "run" and a["op"] == "send":
+            what = "%d times SendSMSCode%s -> %s" % (ev["times"], p, _rle(ev))
+        elif ev["ev"] == "run":
+            what = "%d times VerifySMSCode%s code=%r (%s) hash=%r (%s) -> %s" % (
+                ev["times"], p, _s(a["code"]), a.get("cref"), _s(a["hash"]), a.get("href"), _rle(ev))
+        elif a["op"] == "send":
             what = "SendSMSCode%s -> %s [%s], sms=%s" % (
                 p, a["r"], a["err"], [_s(m["code"]) for m in a["sms"]])
         else:
@@ -39,9 +56,15 @@ def describe(rj):
             b = e.get("a")
             if b and b["p"] == a["p"]:
                 prior.append("%s->%s" % (b["op"] if b["op"] == "send" else
-                                         "verify(%s,%s)" % (b.get("cref"), b.get("href")), b["r"]))
+                                         "verify(%s,%s)" % (b.get("cref"), b.get("href")),
+                                         b["r"] if "r" in b else _rle(e)))
         return ("config %s: %s is not a reply the property allows after this pair's history %s" %
                 (cfg, what, prior[-12:]))
+    if ev.get("ev") == "alpha":
+        want = set(ev["alpha"])
+        miss = {i + 1: _s(sorted(want - set(s))) for i, s in enumerate(ev["pos"]) if want - set(s)}
+        return ("%d outputs of length %d over alphabet %r (%s): %d malformed; characters never seen at "
+                "position: %r" % (ev["n"], ev["len"], _s(ev["alpha"]), reset.get("src"), ev["bad"], miss))
     if ev.get("ev") == "cover":
         seen = set()
         for e in rj["trace"][1:rj["line"]]:
@@ -68,6 +91,8 @@ def run(ctx):
     ctx.tlc_mc(fam, "VCode", "VCode_MC_bug_nonce.cfg", workers=1, expect_violation="AlphabetCovered")
     ctx.tlc_mc(fam, "VCode", "VCode_MC_bug_count.cfg", workers=1, expect_violation="RejectsUnlessDue")
     ctx.tlc_mc(fam, "VCode", "VCode_MC_reach_ok.cfg", workers=1, expect_violation="NeverOk")
+    # the closed form by which runs of identical calls are judged agrees with the single steps
+    ctx.tlc_mc(fam, "VCode", "VCode_MC_run.cfg", workers=4)
     if ctx.thorough:
         ctx.tlc_mc(fam, "VCode", "VCode_MC_bug_concat.cfg", workers=1, expect_violation="RefusalsJustified")
         ctx.tlc_mc(fam, "VCode", "VCode_MC_reach_limit.cfg", workers=1, expect_violation="NeverLimit")
@@ -82,7 +107,8 @@ def run(ctx):
     out = ctx.harness(binary, ["-plans", pdir, "-out", calls_f, "-sample", sample_f, "-seed", ctx.seed,
                                "-rand", ctx.q(300, 5000), "-guess", ctx.q(100, 1500),
                                "-maxops", ctx.q(60, 150), "-nsample", ctx.q(1, 4),
-                               "-twin", ctx.q(60, 800)],
+                               "-twin", ctx.q(60, 800), "-long", ctx.q(40, 600),
+                               "-burst", ctx.q(2, 12)] + (["-full"] if ctx.thorough else []),
                       traces=[calls_f, sample_f])
     # 4. validate what the real code did
     calls = ctx.load_traces(calls_f)
@@ -104,8 +130,9 @@ def run(ctx):
         "for refusal and must have handed over exactly one well-formed message",
         "callers are sequential (the property quantifies over sequences; vcode documents no thread-safety), "
         "separators inside area codes / phones are outside the generated domain",
-        "alphabet coverage is statistical: a sample of >= 300*|alphabet| characters from a uniform "
-        "generator misses a character with probability < 1e-100",
+        "alphabet coverage is statistical: pooled samples of >= 300*|alphabet| characters (miss probability "
+        "< 1e-100) and per-position samples of 45*|alphabet| outputs (miss probability < 1e-17 per position "
+        "and character, < 1e-12 per run); per-position samples log the histogram only, not every send",
         "error kinds are not compared except verify.code.retry.limit, which may only be returned when the "
         "attempts are exhausted; the send that meets exactly MaxCount sends in the window may go either way",
     ]
